@@ -438,7 +438,7 @@ package boltz
 // A child store persists its parent's fields through the parent context. Whatever goes wrong while writing them has to
 // land in the holder the caller looks at after PersistEntity: the parent bucket wrapper shares the child's error holder.
 //@ func (*PersistContext).GetParentContext
-//@   props C07
+//@   props C07 C15
 //@   nosafety
 //@   waive immutable the parent bucket wrapper was made by GetEntityBucket for this very call and is not yet known to anyone else
 //@   modifies *
@@ -454,3 +454,11 @@ package boltz
 //@   props C07
 //@   nosafety
 //@   pure
+
+// a read transaction holds the reload lock for its whole duration, like a write transaction does: a snapshot restore
+// (which swaps the database file under the write lock) cannot pull the file away under a running reader
+//@ func (*DbImpl).View
+//@   props C18
+//@   nosafety
+//@   modifies *
+//@   callpre[the-read-transaction-runs-under-the-reload-lock] View@1: called(RLock, 1) && recv == self.db && arg0 == fn
